@@ -547,7 +547,7 @@ func genPlanted(id int) *caseRec {
 func genPure(id int) *caseRec {
 	var p, m interface{}
 	bs := match.Bindings{}
-	switch rng.Intn(4) {
+	switch rng.Intn(5) {
 	case 0: // repeated variable, structured values, one contained in the other
 		big := value(2)
 		if _, is := big.(map[string]interface{}); !is {
@@ -573,6 +573,17 @@ func genPure(id int) *caseRec {
 			p = map[string]interface{}{"a": map[string]interface{}{"?k": 1.0, "z": 2.0}, "b": float64(1), "c": "?v"}
 			m = map[string]interface{}{"a": map[string]interface{}{"q": 1.0}, "b": float64(rng.Intn(3)), "c": scalar()}
 		}
+	case 2: // a property variable (anonymous or named) whose value pattern binds a variable; several properties fit, each its own way
+		pv := []string{"?", "?", "?k"}[rng.Intn(3)]
+		p = map[string]interface{}{pv: map[string]interface{}{"likes": "?x"}}
+		mm := map[string]interface{}{}
+		for i, n := 0, 2+rng.Intn(3); i < n; i++ {
+			mm[[]string{"a", "b", "c", "d"}[i]] = map[string]interface{}{"likes": scalar(), "n": float64(i)}
+		}
+		if rng.Intn(2) == 0 {
+			mm["z"] = map[string]interface{}{"hates": scalar()}
+		}
+		m = mm
 	default:
 		c := genDeep(id)
 		p, m = c.raw["p"], c.raw["m"]
